@@ -113,6 +113,28 @@ def run (r : Rd α) (args : List String) : Option String := do
       | .error _ => "")))
   | _ => none
 
+/-- `tg.chain relTol mps tol1 half tiny duration dt dflt observables` — `_get_target_times` followed by
+a whole run with `len − 1` steps → `ok npoints rec;rec;…` / `err tag`. -/
+def chain (r : Rd α) (args : List String) : Option String := do
+  match args with
+  | [rt, mp, t1, hf, ty, du, dt, df, ob] =>
+    let rt ← r.parse rt; let mp ← parseB mp; let t1 ← r.parse t1; let hf ← r.parse hf; let ty ← r.parse ty
+    let du ← r.parse du; let dt ← r.parse dt
+    let df ← parseDflt r.parse df; let ob ← parseObs r.parse ob
+    match targetTimes r.nat r.fl rt du dt df ob with
+    | .error e => some ("err " ++ e.tag)
+    | .ok g =>
+      let td : Int := match g.getLast? with
+        | some l => r.fl l
+        | none => 0
+      let tol2 := timeTol r.nat hf ty td
+      let res := ob.map (fun own => runObs false mp t1 tol2 df own g (g.length - 1))
+      if res.any (fun x => match x with | .error _ => true | .ok _ => false) then some "err run"
+      else some (s!"ok {g.length} " ++ ";".intercalate (res.map (fun x => match x with
+        | .ok l => showRec r.shw l
+        | .error _ => "")))
+  | _ => none
+
 /-- `tg.valid eps ts` → `_validate_eval_times` accepts? -/
 def valid (r : Rd α) (args : List String) : Option String := do
   match args with
@@ -138,7 +160,7 @@ def handlers : List (String × (List String → Option String)) :=
   [("tg.grid", grid rdF), ("tg.gridq", grid rdQ), ("tg.merge", merge rdF), ("tg.mergeq", merge rdQ),
    ("tg.sortset", sset rdF), ("tg.pass1", p1 rdF), ("tg.pass1q", p1 rdQ), ("tg.cfg", cfg rdF),
    ("tg.intimes", intimes rdF), ("tg.call", call rdF), ("tg.callq", call rdQ),
-   ("tg.run", run rdF), ("tg.runq", run rdQ), ("tg.valid", valid rdF), ("tg.mid", mid rdF),
+   ("tg.run", run rdF), ("tg.runq", run rdQ), ("tg.chain", chain rdF), ("tg.chainq", chain rdQ), ("tg.valid", valid rdF), ("tg.mid", mid rdF),
    ("tg.reps", reps)]
 
 end EmuVerif.Drv.TimeGrid
